@@ -49,6 +49,21 @@ impl Build for String {
                 _ => { let m = r.usize_below(20); s.shrink_to(m); }
             }
         }
+        // other ways a String comes into being: each leaves its own length / capacity relation
+        match r.below(14) {
+            0 => s = s.clone(),
+            1 => s.clear(),
+            2 => { let t = std::mem::take(&mut s); s = if r.chance(1, 2) { t } else { String::new() }; }
+            3 => s = String::from("a literal"),
+            4 => s = s.into_boxed_str().into_string(),
+            5 => { let mut v = s.into_bytes(); v.reserve(r.usize_below(10)); s = String::from_utf8(v).unwrap(); }
+            6 => { let l = r.usize_below(s.len() + 1); let t = s.split_off(l); if r.chance(1, 2) { s = t; } }
+            7 => { s.extend(["xy", "z"].iter().copied()); }
+            8 => { let l = r.usize_below(s.len() + 1); s.drain(..l); }
+            9 => s = s.chars().rev().collect(),
+            10 => s = format!("{}-{}", s, r.below(1000)),
+            _ => {}
+        }
         s
     }
 }
@@ -56,6 +71,14 @@ impl Build for OsString {
     fn build(r: &mut Rng, d: u32) -> OsString {
         let mut s = if r.chance(1, 2) { OsString::with_capacity(r.usize_below(40)) } else { OsString::new() };
         for _ in 0..r.below(3) { match r.below(4) { 0 => s.push(String::build(r, d)), 1 => s.reserve(r.usize_below(20)), 2 => s.shrink_to_fit(), _ => { let m = r.usize_below(10); s.shrink_to(m); } } }
+        match r.below(10) {
+            0 => s = OsString::from(String::build(r, d)),
+            1 => s.clear(),
+            2 => s = s.into_boxed_os_str().into_os_string(),
+            3 => s = s.clone(),
+            4 => s = PathBuf::build(r, d).into_os_string(),
+            _ => {}
+        }
         s
     }
 }
@@ -63,10 +86,32 @@ impl Build for PathBuf {
     fn build(r: &mut Rng, _d: u32) -> PathBuf {
         let mut p = match r.below(3) { 0 => PathBuf::new(), 1 => PathBuf::with_capacity(r.usize_below(100)), _ => PathBuf::from("seed") };
         for _ in 0..r.below(4) { match r.below(5) { 0 | 1 => p.push(&"abcdefgh"[..1 + r.usize_below(7)]), 2 => p.reserve(r.usize_below(40)), 3 => p.shrink_to_fit(), _ => { p.pop(); } } }
+        match r.below(12) {
+            0 => { p.set_extension("txt"); }
+            1 => { p.set_file_name("other-name.bin"); }
+            2 => p = p.into_boxed_path().into_path_buf(),
+            3 => p = p.clone(),
+            4 => p = PathBuf::from(OsString::build(r, 1)),
+            5 => p = p.join("sub").join("dir"),
+            6 => p.push("/absolute"),
+            _ => {}
+        }
         p
     }
 }
-impl Build for CString { fn build(r: &mut Rng, _d: u32) -> CString { let n = r.usize_below(20); CString::new(text(r, n)).unwrap() } }
+impl Build for CString {
+    fn build(r: &mut Rng, _d: u32) -> CString {
+        let n = r.usize_below(20);
+        match r.below(6) {
+            0 => { let mut v = Vec::with_capacity(n + r.usize_below(30)); v.extend_from_slice(text(r, n).as_bytes()); CString::new(v).unwrap() }
+            1 => { let mut v = text(r, n).into_bytes(); v.push(0); CString::from_vec_with_nul(v).unwrap() }
+            2 => CString::default(),
+            3 => { let c = CString::new(text(r, n)).unwrap(); let mut b = c.into_bytes(); b.reserve(9); b.push(b'q'); CString::new(b).unwrap() }
+            4 => CString::new(text(r, n)).unwrap().clone(),
+            _ => CString::new(text(r, n)).unwrap(),
+        }
+    }
+}
 impl<T: Build> Build for Vec<T> {
     fn build(r: &mut Rng, d: u32) -> Vec<T> {
         let mut v: Vec<T> = match r.below(3) { 0 => Vec::new(), 1 => Vec::with_capacity(r.usize_below(20)), _ => Vec::with_capacity(0) };
@@ -81,6 +126,21 @@ impl<T: Build> Build for Vec<T> {
                 4 => { let m = r.usize_below(12); v.shrink_to(m); }
                 _ => { if r.chance(1, 2) { v.push(T::build(r, d + 1)); } }
             }
+        }
+        match r.below(16) {
+            0 => v.clear(),
+            1 => { let l = r.usize_below(v.len() + 1); v.drain(..l); }
+            2 => { let l = r.usize_below(v.len() + 1); let t = v.split_off(l); if r.chance(1, 2) { v = t; } }
+            3 => v = v.into_iter().collect(),                       // may reuse the buffer in place
+            4 => v = v.into_iter().rev().collect(),
+            5 => v = v.into_boxed_slice().into_vec(),
+            6 => { let mut k = 0usize; v.retain(|_| { k += 1; k % 2 == 0 }); }
+            7 => { let mut w: Vec<T> = Vec::with_capacity(r.usize_below(9)); w.append(&mut v); if r.chance(1, 2) { v = w; } }
+            8 => { let t = std::mem::take(&mut v); if r.chance(1, 2) { v = t; } }
+            9 => { let extra: Vec<T> = (0..r.below(3)).map(|_| T::build(r, d + 1)).collect(); v.extend(extra); }
+            10 => { if !v.is_empty() { let i = r.usize_below(v.len()); v.swap_remove(i); } }
+            11 => { let x = T::build(r, d + 1); let i = r.usize_below(v.len() + 1); v.insert(i, x); }
+            _ => {}
         }
         v
     }
@@ -106,6 +166,16 @@ impl<K: Build + Eq + std::hash::Hash, V: Build> Build for HashMap<K, V> {
         let mut m = if r.chance(1, 2) { HashMap::with_capacity(r.usize_below(30)) } else { HashMap::new() };
         for _ in 0..count(r, d) { m.insert(K::build(r, d + 1), V::build(r, d + 1)); }
         match r.below(4) { 0 => m.reserve(r.usize_below(40)), 1 => m.shrink_to_fit(), 2 => { let k: Vec<()> = Vec::new(); drop(k); } _ => {} }
+        // removals leave tombstones, clear keeps the table, drain empties it, re-insertion after removals re-uses slots
+        match r.below(10) {
+            0 => { let mut k = 0usize; m.retain(|_, _| { k += 1; k % 2 == 0 }); }
+            1 => m.clear(),
+            2 => { let _ = m.drain().count(); }
+            3 => { let mut k = 0usize; m.retain(|_, _| { k += 1; k % 3 != 0 }); for _ in 0..r.below(4) { m.insert(K::build(r, d + 1), V::build(r, d + 1)); } }
+            4 => { m = m.into_iter().collect(); }
+            5 => { m.shrink_to(r.usize_below(20)); }
+            _ => {}
+        }
         m
     }
 }
@@ -114,6 +184,14 @@ impl<T: Build + Eq + std::hash::Hash> Build for HashSet<T> {
         let mut m = if r.chance(1, 2) { HashSet::with_capacity(r.usize_below(30)) } else { HashSet::new() };
         for _ in 0..count(r, d) { m.insert(T::build(r, d + 1)); }
         match r.below(3) { 0 => m.reserve(r.usize_below(40)), 1 => m.shrink_to_fit(), _ => {} }
+        match r.below(10) {
+            0 => { let mut k = 0usize; m.retain(|_| { k += 1; k % 2 == 0 }); }
+            1 => m.clear(),
+            2 => { let _ = m.drain().count(); }
+            3 => { let mut k = 0usize; m.retain(|_| { k += 1; k % 3 != 0 }); for _ in 0..r.below(4) { m.insert(T::build(r, d + 1)); } }
+            4 => { m = m.into_iter().collect(); }
+            _ => {}
+        }
         m
     }
 }
@@ -122,6 +200,17 @@ impl<T: Build + Ord> Build for BinaryHeap<T> {
         let mut h = if r.chance(1, 2) { BinaryHeap::with_capacity(r.usize_below(20)) } else { BinaryHeap::new() };
         for _ in 0..count(r, d) { h.push(T::build(r, d + 1)); }
         match r.below(4) { 0 => h.reserve(r.usize_below(20)), 1 => h.shrink_to_fit(), 2 => { h.pop(); } _ => {} }
+        match r.below(12) {
+            0 => h = BinaryHeap::from(Vec::<T>::build(r, d)),
+            1 => h = BinaryHeap::from(h.into_vec()),
+            2 => h = BinaryHeap::from(h.into_sorted_vec()),
+            3 => h.clear(),
+            4 => { let _ = h.drain().count(); }
+            5 => { let mut o = BinaryHeap::with_capacity(r.usize_below(9)); o.append(&mut h); if r.chance(1, 2) { h = o; } }
+            6 => h = h.into_iter().collect(),
+            7 => { h.shrink_to(r.usize_below(10)); }
+            _ => {}
+        }
         h
     }
 }
